@@ -3,6 +3,7 @@ package govc
 import (
 	"fmt"
 	"go/types"
+	"math/big"
 	"strings"
 
 	"golang.org/x/tools/go/ssa"
@@ -147,6 +148,14 @@ func (fr *frame) staticCall(x *ssa.Call, fn *ssa.Function, args []Value, binding
 	}
 	if len(fn.Blocks) > 0 && (IsRepoFn(fn) || fn.Parent() != nil) {
 		return c.inlineCall(fn, args, bindings, st)
+	}
+	if len(fn.Blocks) > 0 {
+		for _, pre := range c.e.Contracts.ExtInline {
+			if strings.HasPrefix(key, pre) {
+				c.inlinedExt[key] = true
+				return c.inlineCall(fn, args, bindings, st)
+			}
+		}
 	}
 	c.unsupported("call of %s without contract at %s", key, pos)
 	return c.havocResults(st, fn.Signature.Results(), fn.Name())
@@ -690,3 +699,108 @@ func (c *FnCtx) isFreshAt(ref *Term) *Term { return c.f.Gt(ref, c.alpha0) }
 type extHandler func(fr *frame, x *ssa.Call, args []Value, st *State, pos string) Value
 
 var extIntrinsics = map[string]extHandler{}
+
+const cbPath = "golang.org/x/crypto/cryptobyte"
+
+func init() {
+	extIntrinsics["(*"+cbPath+".Builder).AddUint8LengthPrefixed"] = builderLenPrefixed(1)
+	extIntrinsics["(*"+cbPath+".Builder).AddUint16LengthPrefixed"] = builderLenPrefixed(2)
+	extIntrinsics["(*"+cbPath+".Builder).AddUint24LengthPrefixed"] = builderLenPrefixed(3)
+}
+
+// ghostLV returns the location of ghost field name (a `//@ spec ghost` function in vspec) of object ref.
+func (c *FnCtx) ghostLV(name string, ref *Term) *LV {
+	key := VspecPath + "." + name
+	ct := c.e.Contracts.ByKey[key]
+	fn := c.e.FnByKey[key]
+	if ct == nil || fn == nil {
+		c.unsupported("ghost field %s is not declared", name)
+		return &LV{key: "G|" + key, ref: ref}
+	}
+	rt := fn.Signature.Results().At(0).Type()
+	rs, _ := c.sortOf(rt)
+	c.declareHeapKey("G|"+key, rs)
+	return &LV{key: "G|" + key, ref: ref, typ: rt}
+}
+
+func (fr *frame) callFuncValue(fv Value, args []Value, st *State, pos string) Value {
+	c := fr.c
+	switch v := fv.(type) {
+	case *Closure:
+		return c.inlineCall(v.Fn, args, v.Bindings, st)
+	case *FuncVal:
+		return c.inlineCall(v.Fn, args, nil, st)
+	}
+	c.unsupported("call of a non-static function value at %s", pos)
+	return nil
+}
+
+// builderLenPrefixed models Builder.AddUintNLengthPrefixed(f): run f on an empty child builder, then append
+// the big-endian length and the child's bytes; a length that does not fit sets the sticky error.
+func builderLenPrefixed(lenLen int) extHandler {
+	return func(fr *frame, x *ssa.Call, args []Value, st *State, pos string) Value {
+		c := fr.c
+		f := c.f
+		b, ok := args[0].(*Term)
+		if !ok {
+			c.unsupported("builder receiver is not first-order at %s", pos)
+			return nil
+		}
+		c.nilCheck(st, b, pos)
+		bt := x.Call.Args[0].Type().Underlying().(*types.Pointer).Elem()
+		child := c.allocStruct(st, bt)
+		fr.callFuncValue(args[1], []Value{child}, st, pos)
+		cb := c.load(st, c.ghostLV("BuilderBytes", child))
+		ce := c.load(st, c.ghostLV("BuilderErr", child))
+		pbLV := c.ghostLV("BuilderBytes", b)
+		peLV := c.ghostLV("BuilderErr", b)
+		pb := c.load(st, pbLV)
+		pe := c.load(st, peLV)
+		n := f.SLen(cb)
+		max := new(big.Int).Sub(pow2(uint(8*lenLen)), bi(1))
+		nerr := f.Or(pe, ce, f.Lt(f.IntB(max), n))
+		var prefix *Term
+		switch lenLen {
+		case 1:
+			prefix = f.SOne(SB, n)
+		case 2:
+			prefix = f.SCat(f.SOne(SB, f.Div(n, f.Int(256))), f.SOne(SB, f.Mod(n, f.Int(256))))
+		default:
+			prefix = f.SCatN(SB, f.SOne(SB, f.Div(n, f.Int(65536))), f.SOne(SB, f.Mod(f.Div(n, f.Int(256)), f.Int(256))), f.SOne(SB, f.Mod(n, f.Int(256))))
+		}
+		c.frameCheck(st, pbLV.key, b, nil, nil, pos)
+		c.store(st, pbLV, f.Ite(nerr, pb, f.SCat(pb, f.SCat(prefix, cb))))
+		c.store(st, peLV, nerr)
+		return nil
+	}
+}
+
+// allocStruct allocates a zeroed struct (including its ghost fields) and returns the reference.
+func (c *FnCtx) allocStruct(st *State, t types.Type) *Term {
+	si := c.structInfoOf(t)
+	ref := c.alloc(st, si.size)
+	c.storeStruct(st, si, ref, c.zeroOfSort(Sort(si.name), t))
+	c.initGhost(st, t, ref)
+	return ref
+}
+
+// initGhost zero-initialises the ghost fields declared for *t.
+func (c *FnCtx) initGhost(st *State, t types.Type, ref *Term) {
+	for key, ct := range c.e.Contracts.ByKey {
+		if !ct.Ghost {
+			continue
+		}
+		fn := c.e.FnByKey[key]
+		if fn == nil || len(fn.Params) != 1 {
+			continue
+		}
+		pt, ok := fn.Params[0].Type().Underlying().(*types.Pointer)
+		if !ok || !types.Identical(pt.Elem(), t) {
+			continue
+		}
+		rt := fn.Signature.Results().At(0).Type()
+		rs, _ := c.sortOf(rt)
+		c.declareHeapKey("G|"+key, rs)
+		c.store(st, &LV{key: "G|" + key, ref: ref, typ: rt}, c.zeroOfSort(rs, rt))
+	}
+}
